@@ -672,6 +672,18 @@ fn cmd_capconfig(args: &[String]) -> i32 {
             }
             num(1)
         }
+        "spawn-then-set" => {
+            // an actor spawned with the built-in default before the application configures its own: the
+            // configuration call is still the first one and must succeed; later spawns use the new value
+            let pre = Scenario { actors: vec![ActorSpec { cap: None, ..Default::default() }], clients: vec![vec![Op::Tell { h: 0, m: Msg::work(9001) }, Op::Stop { h: 0 }]], ..Default::default() };
+            let cfg0 = SchedCfg { seed: 3, strategy: exec::StrategyCfg::Fifo, spurious_permille: 0, max_steps: 20_000, replay: None };
+            let _ = exec::execute(&pre, &cfg0);
+            let r = rsactor::set_default_mailbox_capacity(num(1));
+            if r.is_err() {
+                problems.push(format!("set_default_mailbox_capacity({}) after an earlier spawn() failed: {r:?} (the default can be configured exactly once - an earlier spawn must not use that up)", num(1)));
+            }
+            num(1)
+        }
         other => {
             eprintln!("unknown mode {other}");
             return 2;
